@@ -23,6 +23,13 @@ Tie
       afld/aint float(field) / int(field) (CPython)        == Op4A.pyFloat? (+ PyFloat.toBits) / Op4A.pyInt?
       avals     OP4._put_ascii_values_sparse[_c]           == Op4A.readVals (fields + pyFloat?)
       ablk      OP4._get_ascii_block                       == Op4A.getBlock
+      wr        bytes / text written by op4.write on its *arguments* (mapping / list / single names, matrices and
+                forms; 0-d, 1-d, 2-d, 3-d inputs of float64/float32/int/uint/bool/complex128/complex64 dtype, native or
+                byte-swapped, C/F-ordered, strided, negatively strided, python scalars and nested lists; scipy.sparse
+                coo/csr/csc/bsr/dia/lil with stored triplets in any order, explicit zeros, duplicates, unsorted indices)
+                                                           == Op4.prepare + writeAllWords / writeOneAscii
+                                                              (Model/Op4Input.lean, Model/Op4Sparse.lean)
+      tod       scipy.sparse.coo_matrix((V,(I,J))).toarray() == Op4.cooToDense (IEEE addition in the driver)
   * model-free oracle (search / replay): read(write(x)) == x on the public API only; and, for ASCII variant
     files, read(text) == the logical content the text was generated from (independent Python encoder).
 """
@@ -48,7 +55,8 @@ Infra = getattr(_main, "Infra", _runner.Infra)
 
 ID = "C04"
 LEAN_MODULES = ["PyYetiVerif.Props.C04", "PyYetiVerif.Audit.C04", "PyYetiVerif.Model.PyFloat",
-                "PyYetiVerif.Model.Op4Variants"]  # (the last two: imported by Drivers/C04.lean)
+                "PyYetiVerif.Model.Op4Variants", "PyYetiVerif.Model.Op4Input", "PyYetiVerif.Model.Op4AsciiBits"]
+                # (the last four: imported by Drivers/C04.lean)
 AUDIT_FILE = "PyYetiVerif/Audit/C04.lean"
 THEOREMS = [
     "PyYetiVerif.C04." + n
@@ -59,16 +67,23 @@ THEOREMS = [
         "fmtE_width ascii_overflow_example file_roundtrip_bytes empty_file_refused value_lines ascii_slicing "
         "fits_iff_width ascii_column_roundtrip_dense ascii_column_roundtrip_bigmat ascii_column_roundtrip_nonbigmat "
         "string_lines header_roundtrip_ascii file_roundtrip_ascii decOf_zero ascii_entry_spec sci_mantissa_digits "
-        "ascii_value_half_unit field_roundtrip"
+        "ascii_value_half_unit field_roundtrip "
+        "write_domain recLen_spec file_roundtrip_binary_domain file_roundtrip_bytes_domain sparse_auto_rule storedIdx_spec "
+        "coo_view_correct write_sparse_eq_write_dense denseMat_entry sparse_input_reclen_wraps ensure_2d_shapes "
+        "vector_input_is_row write_input_normalised plumb_spec write_replaces_file read_back_bits read_back_bits_subnormal "
+        "read_back_bits_finite read_back_needs_17 dir_matches_load_ascii"
     ).split()
 ]
 TRUSTED = [
     "correspondence harness harness/props/c04.py (exact: bytes, text, decoded bit patterns)",
     "translator harness/translate/c04_op4consts.py (constants of op4.py -> Generated/Op4Consts.lean)",
     "CPython struct.pack/unpack, '%E' formatting, int() and float() are modelled (fmtE, pyInt?, pyFloat? + the "
-    "correctly rounded PyFloat.toBits in the driver) and correspondence-checked, not verified",
+    "correctly rounded PyFloat.toBits: decBits, Model/Op4AsciiBits.lean) and correspondence-checked, not verified",
     "CPython text-mode readline / itertools.islice are modelled by cutting the text at '\\n' (linesOf)",
-    "numpy/scipy.sparse containers (nonzero, lexsort, find, coo_matrix) are modelled by list functions",
+    "numpy/scipy.sparse containers are modelled by what they compute: nonzero, lexsort, atleast_2d, astype (Raw.toD), "
+    "sp.find = sum of the stored values of a position in numpy's reduceat order with zero sums dropped (foundAt), "
+    "tocoo() presents the stored triplets, coo_matrix(...).toarray() adds them from +0.0 (cooToDense), np.allclose (a "
+    "parameter of autoForm); IEEE double addition is Lean's Float addition in the driver and a parameter in the theorems",
     "matrix names are ASCII; doubles are finite (the property's quantifier)",
 ]
 RULE = (
@@ -81,53 +96,89 @@ RULE = (
     "text is read by the Lean ASCII reader; ASCII reader only: variant files (any perline/width, D or E exponents, "
     "1P or not, lower case, single/double, arbitrary string partitions, 3-digit exponents of both signs, values that "
     "under/overflow), mutated texts (what the reader rejects), single fields for float()/int(), blocks for the put "
-    "functions and _get_ascii_block; non-trivial = some matrix has a column with at least two strings or the write "
-    "raises (files) / every case (reader-only streams); distinct by the whole logical input"
+    "functions and _get_ascii_block; write arguments (wr): 1-3 entries given as a mapping (matrix, (matrix, form) or "
+    "(matrix, None) values), as lists / a tuple (forms absent, complete or one short) or as single values; each matrix a "
+    "0-d / 1-d / 2-d (also 0 x n, n x 0) / 3-d array of float64, float32, int64, int32, uint8, uint64, bool, "
+    "complex128, complex64 or byte-swapped dtype in C, Fortran, strided or negatively strided memory, a python scalar or "
+    "nested list, or a scipy.sparse coo/csr/csc/bsr/dia/lil matrix built from shuffled triplets with explicit +-0.0 "
+    "entries, up to three duplicates of a position (also cancelling ones) and unsorted csr/csc indices (values finite "
+    "and of magnitude below 1e150 so that every summation order stays finite), x layout option x binary/ASCII x byte "
+    "order x digits; toarray (tod): up to 12 triplets on at most 6 x 5, up to three per position, values incl. +-0.0; "
+    "non-trivial = some matrix has a column with at least two strings or the write raises (files) / every case "
+    "(reader-only and argument streams); distinct by the whole logical input"
 )
 ASSUMPTIONS = [
     "values are finite doubles; names are ASCII; digits between 1 and 73 (perline >= 1)",
-    "binary: matrices have fewer than 2^28 rows (word level) / 2^27 rows (byte level: record lengths are 32-bit words)",
+    "binary: the writer's own domain (write_domain): dimensions <= 2^31 - 1, cols + 1, form and every column record length "
+    "12 + 8*elems / 4*(3 + nwords) below 2^31, nonbigmat strings with L + 1 < 32768 (F2); form is a non-negative integer",
     "ASCII theorems: 6*rows < 10^8, columns + 1 < 10^8, form < 10^8 (every integer fits its 8-character field), "
     "valid names of at most 8 characters, at least one matrix per file, every written value fits its field "
-    "(not negative with a 3-digit exponent: finding F3)",
+    "(not negative with a 3-digit exponent: finding F3); the writer's ValueError above 99 999 999 rows is not modelled",
     "ASCII reader model: no carriage returns, no underscores / inf / nan in numbers, announced perline and numlen "
     ">= 1, no negative row / column / length fields (the model answers `reject`; the harness never produces them)",
+    "scipy.sparse inputs: double precision values in the duplicate-summing model (float32 / integer sparse inputs are "
+    "tied without duplicates), at most 8 stored values per position (numpy sums longer runs pairwise), int32 index "
+    "arrays (scipy's default); write arguments: a python list as a mapping value means (matrix, form) and a python list "
+    "as `matrices` means a list of matrices (documented), so nested lists are matrices only inside a list of matrices",
 ]
 PARTIAL = (
-    "binary and ASCII: the sparse=True COO view (cooOfPuts) and what sparse=None resolves to (sparseAuto) are model "
-    "definitions checked by correspondence, not theorems - the file theorems are about the dense read; "
-    "ASCII: the theorems end at the exact decimal a field denotes (read-back decimal = printed decimal, "
-    "|printed - x| <= half a unit of the last digit); the last step float(decimal) -> nearest double is CPython's "
-    "(modelled in the driver by PyFloat.toBits and correspondence-checked bit for bit), so 'bit-identical for "
-    "digits >= 16' is established by the oracle, not proved; dir on ASCII files (_skipop4_ascii) is modelled and "
-    "correspondence-checked (dirAscii) without a theorem; files with carriage returns are outside the reader model"
+    "proved now: the sparse=True view and the sparse=None rule for binary files (coo_view_correct, sparse_auto_rule), "
+    "sparse inputs = their ndarray (write_sparse_eq_write_dense), input normalisation and argument plumbing "
+    "(write_input_normalised), the writer's true domain (file_roundtrip_binary_domain), float(decimal) = the printed "
+    "double for digits >= 16 (read_back_bits*), dir on written ASCII files (dir_matches_load_ascii). Still not proved: "
+    "(1) the sparse=True / sparse=None views of ASCII files (cooOfPutsA, ADec.sparseAuto) are model definitions checked "
+    "by correspondence only; (2) that scipy's sp.find / tocoo / toarray compute what foundAt / cooToDense say (summation "
+    "order of duplicates, zero signs) and numpy's astype what Raw.toD says is tied by the wr / tod streams, not proved; "
+    "write_sparse_eq_write_dense is about the ndarray denseMat (the found sums), which equals A.toarray() only up to the "
+    "sign of zero parts and, from three duplicates of one position on, the last bit of the sum; (3) the automatic form "
+    "(autoForm, np.allclose as a parameter) is a model definition checked by correspondence, no theorem; (4) "
+    "read_back_bits is per field ((pyFloat? (fmtE d b)).map decBits = some b for every finite double, digits 16..5000): "
+    "the file-level statement follows entry by entry from file_roundtrip_ascii + ascii_entry_spec but is not restated; "
+    "complex elements of the sparse read additionally pass through re + 1j*im (cooEntry); (5) a scipy.sparse input in "
+    "the binary dense layout whose column record reaches 2 GiB wraps its int32 record length (finding F45, "
+    "sparse_input_reclen_wraps): write_sparse_eq_write_dense excludes it by hypothesis, the reader on such a file is not "
+    "modelled; (6) dir / load on ASCII variants the writer never produces and files with carriage returns are outside "
+    "(C11); the ASCII writer's ValueError above 99 999 999 rows is not modelled"
 )
 MANIFEST = {
-    "level_text": "Proof (Lean 4, kernel-checked, standard axioms) about exact models of the OUTPUT4 binary writer/reader "
-    "(bytes), the ASCII writer (text, with a bit-exact model of CPython's %E) and the ASCII reader (lines, int(), "
-    "float() as exact decimals). Binary: for every non-empty list of matrices, layout and byte order, decodeBytes of "
-    "the written bytes is the written names (lower-cased), shapes, forms, types and columns (file_roundtrip_bytes = "
-    "file_roundtrip_binary + bytes_roundtrip + name_roundtrip + format detection; -0.0 outside written strings reads "
-    "as +0.0) exactly when the writer succeeds, which is iff every nonbigmat string satisfies L+1 < 32768 "
-    "(pack_fits_i32, finding F2). ASCII: for every non-empty list of matrices and digits 1..73, loadAscii of the written "
-    "text returns per matrix the name field, rows, columns, form, type and announced format, and every non-zero "
-    "element reads back as exactly the printed decimal (file_roundtrip_ascii, ascii_entry_spec), which is within half a "
-    "unit of the last printed digit of the double (ascii_value_half_unit; the printed mantissa has exactly digits+1 "
-    "digits, sci_mantissa_digits) - under the hypothesis that every value fits its field, which holds iff not (x<0 and "
-    "|exp10|>=100) (fmtE_width, fits_iff_width; finding F3). ascii_slicing: for every width, perline and count the "
-    "reader's slices of the value lines are the written fields; ascii_column_roundtrip_{dense,bigmat,nonbigmat} for "
-    "every partition into strings; _sparse_col_stats yields exactly the maximal runs and the word count the readers "
-    "consume to zero.",
-    "level_note": "Tied, not proved: the models are tied to op4.py by the constants translator and by exact "
-    "correspondence of bytes, text, decoded values, listings, single fields and blocks (pyYeti's own ASCII files for "
-    "digits 1..16/17/20/30/73/default and all layouts, variant files, mutated texts). The sparse=True / sparse=None "
-    "views, dir on ASCII files and the final float(decimal) rounding are model definitions / driver code checked by "
-    "correspondence only (see PARTIAL). Trusted: Lean kernel; propext, Classical.choice, Quot.sound; the Python "
-    "harness; CPython struct/int/float/%E and text-mode line reading; numpy/scipy containers.",
+    "level_text": "Proof (Lean 4, kernel-checked, standard axioms) about exact models of op4.write / op4.load / op4.dir: the "
+    "argument plumbing and input normalisation of write, both writers incl. their scipy.sparse branches, the binary reader "
+    "(bytes), the ASCII reader (lines, int(), float() as exact decimals, then the correctly rounded decimal -> double). "
+    "Binary: for every non-empty list of matrices, layout and byte order on the writer's own domain (every integer handed "
+    "to struct.pack fits: write_domain), decodeBytes of the written bytes is the written names (lower-cased), shapes, forms, "
+    "types and columns (file_roundtrip_bytes_domain / file_roundtrip_binary_domain; -0.0 outside written strings reads as "
+    "+0.0); the writer fails exactly outside that domain or when a nonbigmat string has L+1 >= 32768 (pack_fits_i32, F2). "
+    "sparse=True returns exactly the stored elements as (row, col, value) triplets in file order - the non-zero elements "
+    "for the sparse layouts, everything from the first to the last non-zero row for the dense layout - and its .toarray() "
+    "is the dense read up to the sign of zeros (coo_view_correct, storedIdx_spec); sparse=None returns a sparse matrix iff "
+    "bigmat with rows or nonbigmat with a non-zero, and otherwise the file is byte-identical to the dense-layout file "
+    "(sparse_auto_rule). Inputs: whatever write is given (mapping / lists / single values, 0-d/1-d/2-d arrays of any dtype, "
+    "scipy.sparse with duplicates, explicit zeros, any order) the file is the file of the normalised 2-d double matrices "
+    "with checked names, resolved forms and layouts (write_input_normalised, write_sparse_eq_write_dense, "
+    "vector_input_is_row: a 1-d array is one row); every call replaces the file. ASCII: for every non-empty list of "
+    "matrices and digits 1..73, loadAscii of the written text returns per matrix the name field, rows, columns, form, type "
+    "and announced format, and every non-zero element reads back as exactly the printed decimal (file_roundtrip_ascii, "
+    "ascii_entry_spec), which is within half a unit of the last printed digit (ascii_value_half_unit) - under the "
+    "hypothesis that every value fits its field, which holds iff not (x<0 and |exp10|>=100) (fmtE_width, F3); with "
+    "digits >= 16 the decimal rounds back to the bit-identical double, for every finite double incl. subnormals and "
+    "signed zeros (read_back_bits, read_back_bits_subnormal, read_back_bits_finite; 16 significant digits are not enough: "
+    "read_back_needs_17); dir lists exactly what load returns (dir_matches_load_ascii; binary: C11). ascii_slicing, "
+    "ascii_column_roundtrip_{dense,bigmat,nonbigmat} for every partition into strings; _sparse_col_stats yields exactly "
+    "the maximal runs and the word count the readers consume to zero.",
+    "level_note": "Tied, not proved: the models are tied to op4.py by the constants translator and by exact correspondence "
+    "of bytes, text, decoded values, listings, single fields and blocks (pyYeti's own files for all layouts, digits "
+    "1..16/17/20/30/73/default, variant files, mutated texts) and of the files written for generated *arguments* of "
+    "write (wr stream: dtype, memory layout, dimensionality, mapping/list/single interfaces, scipy.sparse formats with "
+    "duplicates, explicit zeros, unsorted indices). Library behaviour is modelled by what it computes and checked by "
+    "correspondence only: sp.find / tocoo / toarray (summation order of duplicates), astype, np.allclose (automatic "
+    "form), struct, '%E', int(), float(). The sparse views of ASCII files are correspondence-only (see PARTIAL). Finding "
+    "F45 (int32 wrap of a 2 GiB dense record of a sparse input) is reproduced by the oracle in the thorough tier only. "
+    "Trusted: Lean kernel; propext, Classical.choice, Quot.sound; the Python harness; CPython / numpy / scipy as listed.",
     "technique": "Lean 4 proof (induction over lines/strings/columns/matrices, omega on the packed header, bisection "
-    "invariant for the %E exponent, rational arithmetic for the half-unit bound, relational transport of the binary "
-    "put lemmas to the ASCII reader) + source->Lean constants translator + exact differential correspondence of "
-    "bytes, text, decoded values, fields and blocks",
+    "invariant for the %E exponent, rational arithmetic for the half-unit bound and for round-to-nearest of a decimal "
+    "within half an ulp, cell-wise reasoning for COO -> dense, relational transport of the binary put lemmas to the ASCII "
+    "reader) + source->Lean constants translator + exact differential correspondence of bytes, text, decoded values, "
+    "fields, blocks and write arguments",
 }
 
 NEW_F45 = "op4-binary-dense-sparse-input-record-ge-2GiB-int32-wrap"
